@@ -549,6 +549,7 @@ class World(object):
 
         self.W.plan = plan
         crashed = None
+        ne_before = Expression.counter
         try:
             with contextlib.redirect_stdout(io.StringIO()):     # the duality-gap warning is printed even with verbose=0
                 ret = self.p.solve(wrapper=WRAPPER_NAME, verbose=0, return_primal_or_dual=option)
@@ -595,7 +596,9 @@ class World(object):
         else:
             self.emit("(Solve None)", out, what="Solve#%d failed" % solve_no)
         rec = dict(ok=ok, counts=(n_sc, n_lmi, nnz), edited=self.edited, n=Point.counter, m=Expression.counter,
-                   returned=ret, crashed=crashed)
+                   returned=ret, crashed=crashed, new_leaf_exprs=Expression.counter - ne_before,
+                   class_lmis=sum(len(l) for _, l in ft), class_cons=sum(len(c) for c, _ in ft),
+                   partition_cons=sum(len(q) for q in pt))
         # ---- direct checks on the implementation
         if crashed:
             self.problem("solve-raised", error=crashed)
@@ -732,14 +735,20 @@ class World(object):
             gk = "ok"
         except Exception as e:
             v, gk = None, err_kind(e)
-        if gk != "ok":
+        try:
+            if gk != "ok":
+                out = gk
+            elif kind == "P":
+                if not (isinstance(v, np.ndarray) and v.ndim == 1):
+                    raise TypeError("not a vector")
+                out = [int(hit), self.vec_dump(v, cross=not hit)]
+            elif kind == "L":
+                out = [int(hit), ["~", [[num(x) for x in row] for row in v]]]
+            else:
+                out = [int(hit), ["~", num(float(v))]]
+        except Exception:             # eval() returned something that is not a value of the documented type
+            gk = "bad-value:%s" % type(v).__name__
             out = gk
-        elif kind == "P":
-            out = [int(hit), self.vec_dump(v, cross=not hit)]
-        elif kind == "L":
-            out = [int(hit), ["~", [[num(x) for x in row] for row in v]]]
-        else:
-            out = [int(hit), ["~", num(v)]]
         self.emit("(Eval %s)" % coq_nat(r), out, what="Eval #%d %s" % (r, kind))
         self.restamp()
         self.judge(o, kind, gk, v, ref=r)
@@ -787,6 +796,14 @@ class World(object):
                 self.problem("value-without-solution", leaf_point=i)
             elif self.last_failed:
                 self.problem("values-survive-failed-solve", leaf_point=i, latest_solve_failed=True)
+            else:
+                for j, other in enumerate(self.leaf_points()):
+                    if j < ex["n"] and other._value is not None:
+                        want = float(sum(ex["P0"][r][i] * ex["P0"][r][j] for r in range(ex["rank"])))
+                        got = float(np.dot(v, other._value)) if len(other._value) == len(v) else float("nan")
+                        if not abs(got - want) <= TOL * (1 + abs(want)):
+                            self.problem("leaf-gram-differs", leaf_point=i, other=j, got=got, want=want)
+                            break
         elif gk == "unsolved":
             if ex is not None and i < ex["n"] and not self.last_failed:
                 self.problem("unsolved-but-solution-exists", leaf_point=i)
@@ -1011,7 +1028,7 @@ def run_stream(name, gen, seeds, own_kinds):
             hist[h] = hist.get(h, 0) + 1
         if any(s["ok"] for s in w.solves) and w.nevals >= 3:
             distinct.add(hash(tuple(w.ops)))
-    bad = run_cases(name, IMPORTS, RUN, cases, shard=25, input_type=INPUT_TYPE)
+    bad = run_cases(name.replace("-", "_"), IMPORTS, RUN, cases, shard=25, input_type=INPUT_TYPE)
     mism = []
     for i in bad[:3]:
         cs, w = worlds[i]
@@ -1039,7 +1056,13 @@ def run_stream(name, gen, seeds, own_kinds):
                 distribution=dict(ops=hist, solves=nsolves, eval_ops=nev,
                                   ops_per_program=round(sum(len(w.ops) for _, w in worlds) / max(1, len(worlds)), 1),
                                   failed_solves=sum(1 for _, w in worlds for s in w.solves if not s["ok"]),
-                                  F_length_growth_per_solve=1))
+                                  solves_with_class_lmis=sum(1 for _, w in worlds for s in w.solves if s["class_lmis"]),
+                                  solves_with_partition_constraints=sum(1 for _, w in worlds for s in w.solves
+                                                                        if s["partition_cons"]),
+                                  max_sent_items=max([sum(s["counts"][:2]) for _, w in worlds for s in w.solves] or [0]),
+                                  leaf_points_at_solve=sorted(set(s["n"] for _, w in worlds for s in w.solves)),
+                                  behaviour_F_grows_by_this_many_leaves_per_solve=sorted(
+                                      set(s["new_leaf_exprs"] for _, w in worlds for s in w.solves))))
 
 
 def direct_search(gen, seeds):
@@ -1061,3 +1084,178 @@ def replay_case(payload):
         return any(p["kind"] == kind for p in w.problems)
     bad = run_cases("replay", IMPORTS, RUN, [w.case()], input_type=INPUT_TYPE)
     return bool(bad) or any(p["kind"] not in KNOWN_KINDS for p in w.problems)
+
+
+# ------------------------------------------------------------------------------------------ real SCS solves
+SCS_OPTS = dict(eps_abs=1e-9, eps_rel=1e-9, max_iters=200000)
+
+
+def _quiet_solve(p, **kw):
+    kw = dict(SCS_OPTS, **kw)
+    with contextlib.redirect_stdout(io.StringIO()):
+        return p.solve(verbose=0, **kw)
+
+
+def real_model(idx, radius=1.0):
+    """small, well-conditioned PEPs (gradient-type methods); idx selects the variant"""
+    from PEPit import PEP
+    from PEPit.functions import SmoothStronglyConvexFunction, ConvexFunction, SmoothStronglyConvexQuadraticFunction
+    from PEPit.operators import SymmetricLinearOperator
+    rng = random.Random(7700 + idx)
+    p = PEP()
+    kind = ["gd", "gd2", "symlin", "quad", "partition", "lmi"][idx % 6]
+    L = rng.choice([1.0, 2.0])
+    mu = rng.choice([0.1, 0.25])
+    gamma = rng.choice([0.5, 1.0, 1.5]) / L
+    n = rng.randint(1, 3)
+    info = dict(kind=kind, L=L, mu=mu, gamma=gamma, n=n, radius=radius)
+    if kind in ("gd", "gd2", "lmi", "partition"):
+        f = p.declare_function(SmoothStronglyConvexFunction, mu=mu, L=L)
+        xs = f.stationary_point()
+        fs = f(xs)
+        x0 = p.set_initial_point()
+        x = x0
+        for _ in range(n):
+            x = x - gamma * f.gradient(x)
+        cond = (x0 - xs) ** 2 <= radius
+        p.set_initial_condition(cond)
+        p.set_performance_metric((x - xs) ** 2)
+        if kind == "gd2":
+            p.set_performance_metric(2 * (f(x) - fs) / L + (x - xs) ** 2 / 2)
+        if kind == "lmi":
+            a, b = x0 - xs, x - xs
+            p.add_psd_matrix([[a ** 2, a * b], [a * b, b ** 2]])
+        if kind == "partition":
+            part = p.declare_block_partition(d=2)
+            part.get_block(x0, 0)
+            part.get_block(f.gradient(x0), 1)
+    elif kind == "symlin":
+        A = p.declare_function(SymmetricLinearOperator, mu=mu, L=L)
+        x0 = p.set_initial_point()
+        xs = None
+        x = x0
+        for _ in range(n):
+            x = x - (0.5 / L) * A.gradient(x)
+        cond = x0 ** 2 <= radius
+        p.set_initial_condition(cond)
+        p.set_performance_metric(x ** 2)
+    else:
+        f = p.declare_function(SmoothStronglyConvexQuadraticFunction, mu=mu, L=L)
+        xs = f.stationary_point()
+        x0 = p.set_initial_point()
+        x = x0
+        for _ in range(n):
+            x = x - gamma * f.gradient(x)
+        cond = (x0 - xs) ** 2 <= radius
+        p.set_initial_condition(cond)
+        p.set_performance_metric((x - xs) ** 2)
+    return p, dict(x0=x0, xs=xs, x=x, cond=cond, info=info)
+
+
+def recompute_expr(d):
+    """value of a decomposition dict from the CURRENT leaf values (numpy, independent of Expression.eval)"""
+    acc = 0.0
+    for k, v in d.items():
+        if isinstance(k, tuple):
+            acc += v * float(np.dot(k[0]._value, k[1]._value))
+        elif type(k).__name__ == "Expression":
+            acc += v * float(k._value)
+        else:
+            acc += v
+    return acc
+
+
+def sent_counts(p):
+    cs = p._list_of_constraints_sent_to_wrapper
+    ls = p._list_of_psd_sent_to_wrapper
+    nnz = sum(len(c.expression.decomposition_dict) for c in cs) + \
+        sum(len(x.decomposition_dict) for m in ls for x in m.matrix_of_expressions.flat)
+    return (len(cs), len(ls), nnz)
+
+
+def check_instance(p, h, idx, problems, stats):
+    """C02 on a real solve: Gram reproduction, constraints at the instance, objective = min metric,
+    primal <= dual + tol, derived objects = combination of their operands (also for objects built now)"""
+    from PEPit import Point
+    dual = _quiet_solve(p, return_primal_or_dual="dual")
+    if dual is None:
+        problems.append(dict(kind="real-solve-returned-none", model=idx))
+        return
+    G = np.asarray(p.G_value)
+    ev, evec = np.linalg.eigh((G + G.T) / 2)
+    Gp = (evec * np.maximum(ev, 0)) @ evec.T
+    primal = float(p.objective.eval())
+    scale = max(1.0, abs(primal), float(np.max(np.abs(G))))
+    lp = list(Point.list_of_leaf_points)
+    P = np.array([q.eval() for q in lp]).T
+    gram_err = float(np.max(np.abs(P.T @ P - Gp)))
+    stats["gram_err"] = max(stats.get("gram_err", 0), gram_err / scale)
+    if gram_err > 1e-6 * scale:
+        problems.append(dict(kind="gram-mismatch", model=idx, error=gram_err))
+    worst = 0.0
+    for c in p._list_of_constraints_sent_to_wrapper:
+        v = float(c.eval())
+        r = recompute_expr(c.expression.decomposition_dict)
+        if abs(v - r) > 1e-8 * scale:
+            problems.append(dict(kind="value-differs", model=idx, got=v, want=r, what="sent constraint"))
+        viol = v if c.equality_or_inequality == "inequality" else abs(v)
+        worst = max(worst, viol)
+    for m in p._list_of_psd_sent_to_wrapper:
+        M = np.array(m.eval(), dtype=float)
+        worst = max(worst, -float(np.min(np.linalg.eigvalsh((M + M.T) / 2))))
+        for i in range(M.shape[0]):
+            for j in range(M.shape[1]):
+                r = recompute_expr(m[i, j].decomposition_dict)
+                if abs(M[i, j] - r) > 1e-8 * scale:
+                    problems.append(dict(kind="value-differs", model=idx, what="LMI entry"))
+    stats["violation"] = max(stats.get("violation", 0), worst / scale)
+    if worst > 1e-4 * scale:
+        problems.append(dict(kind="constraint-violated-at-instance", model=idx, violation=worst, scale=scale))
+    mets = [float(m.eval()) for m in p.list_of_performance_metrics]
+    stats["obj_gap"] = max(stats.get("obj_gap", 0), abs(primal - min(mets)) / scale)
+    if abs(primal - min(mets)) > 1e-5 * scale:
+        problems.append(dict(kind="objective-is-not-min-metric", model=idx, objective=primal, metrics=mets))
+    stats["pd_gap"] = max(stats.get("pd_gap", -1), (primal - dual) / scale)
+    if primal > dual + 1e-3 * scale:
+        problems.append(dict(kind="primal-exceeds-dual", model=idx, primal=primal, dual=dual))
+    # objects built after the solve: same combination of the values of the operands, in coordinates
+    x0, x = h["x0"], h["x"]
+    dnew = x - 2 * x0
+    want = x.eval() - 2 * x0.eval()
+    if np.max(np.abs(dnew.eval() - want)) > 1e-10 * scale:
+        problems.append(dict(kind="value-differs", model=idx, what="derived point built after the solve"))
+    e = dnew ** 2 + 3 * (x * x0) - 1
+    want = float(np.dot(dnew.eval(), dnew.eval()) + 3 * np.dot(x.eval(), x0.eval()) - 1)
+    if abs(float(e.eval()) - want) > 1e-9 * scale * scale:
+        problems.append(dict(kind="value-differs", model=idx, what="expression built after the solve"))
+
+
+def check_resolve(idx, problems, stats, known_hits):
+    """C13 on real solves: unchanged re-solve, radius 1 -> 4, failed solve"""
+    p, h = real_model(idx)
+    x0, xs, x = h["x0"], h["xs"], h["x"]
+    base = x0 if xs is None else x0 - xs
+    held = base ** 2
+    v1 = _quiet_solve(p)
+    c1 = sent_counts(p)
+    h1 = float(held.eval())
+    v2 = _quiet_solve(p)
+    c2 = sent_counts(p)
+    scale = max(1.0, abs(v1))
+    stats["resolve_diff"] = max(stats.get("resolve_diff", 0), abs(v1 - v2) / scale)
+    if abs(v1 - v2) > 1e-3 * scale:
+        problems.append(dict(kind="unchanged-resolve-value-differs", model=idx, first=v1, second=v2))
+    if c1 != c2:
+        problems.append(dict(kind="growth", model=idx, previous=c1, now=c2, what="real classes, unchanged model"))
+    # replace the initial condition: radius 1 -> 4
+    p.list_of_constraints = [c for c in p.list_of_constraints if c is not h["cond"]]
+    cond4 = base ** 2 <= 4
+    p.set_initial_condition(cond4)
+    v3 = _quiet_solve(p)
+    pf, hf = real_model(idx, radius=4.0)           # the newly built equivalent model
+    vf = _quiet_solve(pf)
+    p.wrapper  # noqa (the PEP() of the fresh model reset the class counters only; objects of p stay valid)
+    stats["edit_diff"] = max(stats.get("edit_diff", 0), abs(v3 - vf) / max(1.0, abs(vf)))
+    if abs(v3 - vf) > 1e-3 * max(1.0, abs(vf)):
+        problems.append(dict(kind="edited-resolve-differs-from-fresh-model", model=idx, resolved=v3, fresh=vf))
+    return dict(v1=v1, v2=v2, v3=v3, fresh=vf, held_after_edit=float(held.eval()), held_first=h1, counts=(c1, c2))
